@@ -13,7 +13,7 @@ var c18Scopes = []string{"", "", "", "corp", "a.b-c"}
 var c18IPs = [][]byte{
 	{10, 0, 0, 1},
 	{0, 0, 0, 0, 0, 0, 0, 0, 0, 0, 0xff, 0xff, 10, 0, 0, 1}, // the same address in its 16-byte form (net.IP.Equal)
-	{0x00, 0x00, 10, 0, 0, 2},                                // NB_FLAGS + address, as RFC 1002 NB records carry it
+	{0x00, 0x00, 10, 0, 0, 2},                               // NB_FLAGS + address, as RFC 1002 NB records carry it
 	{0x80, 0x00, 10, 0, 0, 3},
 	{10, 0, 0, 4},
 	{0xfe, 0x80, 0, 0, 0, 0, 0, 0, 0, 0, 0, 0, 0, 0, 0, 9},
